@@ -6,9 +6,17 @@ import (
 	"sync/atomic"
 	"time"
 
+	"github.com/alibaba/sentinel-golang/core/circuitbreaker"
+	"github.com/alibaba/sentinel-golang/core/config"
+	"github.com/alibaba/sentinel-golang/core/flow"
+	"github.com/alibaba/sentinel-golang/core/hotspot"
+	"github.com/alibaba/sentinel-golang/core/isolation"
+	"github.com/alibaba/sentinel-golang/core/stat"
+	"github.com/alibaba/sentinel-golang/core/system"
 	"github.com/alibaba/sentinel-golang/logging"
 	"github.com/alibaba/sentinel-golang/util"
 	"github.com/alibaba/sentinel-golang/verifshim/vsched"
+	vsync "github.com/alibaba/sentinel-golang/verifshim/vsync"
 )
 
 // VClock is the virtual clock. Time moves only by Set/Advance, or by Sleep when
@@ -49,14 +57,14 @@ func (c *VClock) Sleep(d time.Duration) {
 	}
 }
 
-func (c *VClock) SetNs(ns int64)      { atomic.StoreInt64(&c.ns, ns) }
-func (c *VClock) SetMs(ms int64)      { atomic.StoreInt64(&c.ns, ms*1e6) }
-func (c *VClock) AdvanceMs(ms int64)  { atomic.AddInt64(&c.ns, ms*1e6) }
-func (c *VClock) AdvanceNs(ns int64)  { atomic.AddInt64(&c.ns, ns) }
-func (c *VClock) Ns() int64           { return atomic.LoadInt64(&c.ns) }
-func (c *VClock) Ms() int64           { return atomic.LoadInt64(&c.ns) / 1e6 }
+func (c *VClock) SetNs(ns int64)          { atomic.StoreInt64(&c.ns, ns) }
+func (c *VClock) SetMs(ms int64)          { atomic.StoreInt64(&c.ns, ms*1e6) }
+func (c *VClock) AdvanceMs(ms int64)      { atomic.AddInt64(&c.ns, ms*1e6) }
+func (c *VClock) AdvanceNs(ns int64)      { atomic.AddInt64(&c.ns, ns) }
+func (c *VClock) Ns() int64               { return atomic.LoadInt64(&c.ns) }
+func (c *VClock) Ms() int64               { return atomic.LoadInt64(&c.ns) / 1e6 }
 func (c *VClock) Sleeps() []time.Duration { return c.sleeps }
-func (c *VClock) ResetSleeps()        { c.sleeps = c.sleeps[:0] }
+func (c *VClock) ResetSleeps()            { c.sleeps = c.sleeps[:0] }
 
 type nopLogger struct{}
 
@@ -79,4 +87,38 @@ func Install() {
 	installed = true
 	util.SetClock(Clock)
 	_ = logging.ResetGlobalLogger(nopLogger{})
+}
+
+// Geometry of the global statistics (array and default metric view).
+type Geometry struct {
+	ArrSamples, ArrIntervalMs, ViewSamples, ViewIntervalMs uint32
+}
+
+var DefaultGeometry = Geometry{20, 10000, 2, 1000}
+
+// ResetAll puts every piece of global state of the code under test back to a fresh state:
+// configuration, rules of all modules, breaker listeners, resource nodes, inbound node, pools,
+// clock (set to startMs).
+func ResetAll(g Geometry, startMs int64) {
+	Install()
+	cfg := config.NewDefaultConfig()
+	cfg.Sentinel.Stat.GlobalStatisticSampleCountTotal = g.ArrSamples
+	cfg.Sentinel.Stat.GlobalStatisticIntervalMsTotal = g.ArrIntervalMs
+	cfg.Sentinel.Stat.MetricStatisticSampleCount = g.ViewSamples
+	cfg.Sentinel.Stat.MetricStatisticIntervalMs = g.ViewIntervalMs
+	config.ResetGlobalConfig(cfg)
+	Clock.SetMs(startMs)
+	Clock.SleepAdvances = false
+	Clock.OnSleep = nil
+	Clock.ResetSleeps()
+	_ = flow.ClearRules()
+	_ = isolation.ClearRules()
+	_ = hotspot.ClearRules()
+	_ = circuitbreaker.ClearRules()
+	circuitbreaker.ClearStateChangeListeners()
+	_ = system.ClearRules()
+	stat.ResetResourceNodeMap()
+	stat.VerifResetInbound()
+	vsync.ResetPools()
+	vsync.PoolMiss = nil
 }
